@@ -878,6 +878,16 @@ impl<'a> Gen<'a> {
         name
     }
 
+    /// the control skeleton of a counted loop: an else-chain (`cond ?> ^~ next |> exit`), or the reapply as
+    /// the right operand of a logical operator (`cond && ^~ next`, `!cond-equivalent || ^~ next`)
+    fn loop_control(&mut self, counter: G, n: usize, next: G, exit: G) -> G {
+        match self.rng.below(6) {
+            0 => G::bin("&&", G::bin("<", counter, G::num(n as i64)), G::Reapply(Box::new(next))),
+            1 => G::bin("||", G::bin(">=", counter, G::num(n as i64)), G::Reapply(Box::new(next))),
+            _ => G::Chain(vec![("?>", G::bin("<", counter, G::num(n as i64)), G::Reapply(Box::new(next)))], Some(Box::new(exit))),
+        }
+    }
+
     /// a whole program that is a reapply loop at the top level (no enclosing `{ }`), with the input value it
     /// must be started with: `$.n < N ?> ^~ (:n = $.n + 1, :v = BODY) |> EXIT` and `(:n = 0, :v = 1)`
     pub fn toplevel_loop(&mut self, budget: usize) -> (G, crate::val::Val) {
@@ -892,9 +902,8 @@ impl<'a> Gen<'a> {
         let exit = self.expr(each);
         self.dollar_keyed = saved;
         let counter = G::Access(Box::new(G::atom("$")), "n".to_string());
-        let cond = G::bin("<", counter.clone(), G::num(n as i64));
-        let next = G::CommaList(vec![G::bin("=", G::atom(":n"), G::bin("+", counter, G::num(1))), G::bin("=", G::atom(":v"), body)]);
-        let chain = G::Chain(vec![("?>", cond, G::Reapply(Box::new(next)))], Some(Box::new(exit)));
+        let next = G::CommaList(vec![G::bin("=", G::atom(":n"), G::bin("+", counter.clone(), G::num(1))), G::bin("=", G::atom(":v"), body)]);
+        let chain = self.loop_control(counter, n, next, exit);
         let sym = |k: &str| Val::Sym(garnish_lang_simple_data::symbol_value(k));
         (chain, Val::List(vec![Val::pair(sym("n"), Val::Int(0)), Val::pair(sym("v"), Val::Int(1))]))
     }
@@ -916,9 +925,8 @@ impl<'a> Gen<'a> {
         self.dollar_keyed = saved;
         let init = self.expr(each);
         let counter = G::Access(Box::new(G::atom("$")), "n".to_string());
-        let cond = G::bin("<", counter.clone(), G::num(n as i64));
-        let next = G::CommaList(vec![G::bin("=", G::atom(":n"), G::bin("+", counter, G::num(1))), G::bin("=", G::atom(":v"), body)]);
-        let chain = G::Chain(vec![("?>", cond, G::Reapply(Box::new(next)))], Some(Box::new(exit)));
+        let next = G::CommaList(vec![G::bin("=", G::atom(":n"), G::bin("+", counter.clone(), G::num(1))), G::bin("=", G::atom(":v"), body)]);
+        let chain = self.loop_control(counter, n, next, exit);
         G::bin("<~", G::Nested(Box::new(chain)), G::CommaList(vec![G::bin("=", G::atom(":n"), G::num(0)), G::bin("=", G::atom(":v"), init)]))
     }
 }
